@@ -24,6 +24,8 @@ MUTANTS = [
     ("C15", "areneigh-wrong-extent", P + "rdgridspace.py", "            dy = min(dy, abs(self.h-dy))", "            dy = min(dy, abs(self.w-dy))", "C15.AXIS"),
     ("C15", "areneigh-drops-z", P + "rdgridspace.py", "        return ((dx + dy + dz) == 1)", "        return ((dx + dy) == 1)", "C15.DISP"),
     ("C15", "areneigh-no-wrap-test", P + "rdgridspace.py", "        if self._boundary_conditions[\"z\"] == \"periodical\" :\n            dz = min(dz, abs(self.d-dz))", "        dz = min(dz, abs(self.d-dz))", "C15.DISP"),
+    ("C01", "get-edge-directed", P + "rdgraphspace.py", "            if (edge.i==i and edge.j==j) or (edge.i==j and edge.j==i) :", "            if (edge.i==i and edge.j==j) :", "C01.NEIGH"),
+    ("C01", "graph-neighbours-above-only", P + "kinetics.py", "        if j != position :\n            if system.space.get_edge(position, j) is not None :", "        if j > position :\n            if system.space.get_edge(position, j) is not None :", "C01.NEIGH"),
     # ---- C13
     ("C13", "state-index-cell-major", P + "rdsystem.py", "        return species_index * self.space.size() + cell_index", "        return cell_index * self.network.nspecies() + species_index", "C13.INDEX"),
     ("C13", "state-not-converted", P + "rdsystem.py", "        state[i] = (cell_species_density * cell_vol.get_at(i)).convert(units_system).value", "        state[i] = (cell_species_density * cell_vol.get_at(i)).value", "C13.TAG"),
